@@ -148,14 +148,13 @@ def _mk_sign(orthogonal, what):
     def body(env):
         with sym_numpy(env):
             if what == "reverse_current":
-                # psi -> -psi: Bp -> -Bp, bpsign -> -bpsign, cos(beta) -> -cos(beta) (grad psi flips), sin(beta) -> -sin(beta) (Bp_hat flips)
-                r1, ok1 = _run(env, orthogonal, 1.0, 1.0)
-                r2, ok2 = _run(env, orthogonal, -1.0, -1.0)
-                if not orthogonal:
-                    r2.sinBeta = -1.0 * r2.sinBeta
-                    # rebuild the dependent quantities with the flipped sin (tanBeta invariant): recompute metric
-                    r2.tanBeta = r2.sinBeta / r2.cosBeta
-                    ok2 = c02.run_metric(env, r2)
+                # psi -> -psi on the same grid points: Bp -> -Bp, bpsign -> -bpsign, grad(psi) reversed; beta is whatever the REAL calcBeta makes of that
+                if orthogonal:
+                    r1, ok1 = _run(env, orthogonal, 1.0, 1.0)
+                    r2, ok2 = _run(env, orthogonal, -1.0, -1.0)
+                else:
+                    r1, ok1 = _run(env, orthogonal, 1.0, 1.0, geometry={"gsign": 1.0, "dsign": 1.0})
+                    r2, ok2 = _run(env, orthogonal, -1.0, -1.0, geometry={"gsign": -1.0, "share": r1.geom})
                 odd = X_ODD
             else:
                 r1, ok1 = _run(env, orthogonal, 1.0, 1.0)
